@@ -119,6 +119,8 @@ def main(run):
         doc = gen_doc(schema, rng, n_ops)
         plain, op_order = render_shuffled(doc, rng)
         style = rng.choice([None, None, None, "crlf", "lf", "tabs", "dense"])
+        if di % 4 == 1:
+            style = "crlf"      # every fourth document is a pure CR LF file (no lone CR): three of them end up in the compiled subset
         text = rerender(plain, rng, style)
         qp = os.path.join(work, "q%d.graphql" % di)
         with open(qp, "w", encoding="utf-8", newline="") as f:
